@@ -12,6 +12,7 @@ Decided (structural necessary conditions):
   C05.part    the residual partition layout guards of both decoders (shared with C17 / C03)
   C05.utf8    malformed continuation bytes of the coded frame number are rejected (shared with C03)
   (C05.inv floors are the counted numbers of live rejecting exits per error class: a removed exit is reported)
+  C05.short    (also) ShortBlock is raised only where STREAMINFO's total_samples is known (is-Some fact at the site or where its closure is built)
 Not decided: that a flipped bit is detected (CRC mathematics), that delivered samples are a prefix.
 """
 from rules.common import *
